@@ -22,6 +22,7 @@ import (
 	"time"
 
 	"example.com/scion-time/core/client"
+	"example.com/scion-time/net/nts"
 	"example.com/scion-time/net/ntske"
 
 	"verif/harness/internal/ev"
@@ -494,6 +495,84 @@ func init() {
 				}
 			}
 			r.Distinct(fmt.Sprint(trace))
+		}
+
+		// ---- a measurement of a superseded session answers late: its request took the last cookie of
+		// session 1, another measurement on the same client exchanged keys again (session 2), then the
+		// response of session 1 (authentic under the keys the first measurement still holds) arrives.
+		// Afterwards every request must pair the keys of session 2 with a cookie issued in session 2.
+		for lidx := 0; lidx < r.Pick(24, 600); lidx++ {
+			lid := fmt.Sprintf("late%d", lidx)
+			if r.Only() != "" && r.Only() != lid {
+				continue
+			}
+			f := c20NewFetcher(srvAP)
+			k1 := 1 + rng.IntN(3)
+			d1, err, conn1 := exchange(f, &c20Case{class: "valid", stream: mkValid(k1, "", 0), closeA: -1})
+			r.Eval(1)
+			if err != nil || conn1 == nil {
+				r.Inconclusive(fmt.Sprintf("late-response case %s: first exchange did not complete: %v", lid, err))
+				continue
+			}
+			for i := 1; i < k1; i++ { // spend the rest of session 1
+				ctx, cancel := context.WithTimeout(context.Background(), 10*time.Second)
+				_, err = f.FetchData(ctx)
+				cancel()
+			}
+			k2 := 1 + rng.IntN(7)
+			d2, err, conn2 := exchange(f, &c20Case{class: "valid", stream: mkValid(k2, "", 0), closeA: -1})
+			r.Eval(1)
+			if err != nil || conn2 == nil || conn2 == conn1 {
+				r.Inconclusive(fmt.Sprintf("late-response case %s: second exchange did not complete: %v", lid, err))
+				continue
+			}
+			// the late response of session 1: cookies tagged with session 1's connection
+			m := 1 + rng.IntN(8)
+			late := make([][]byte, m)
+			for i := range late {
+				late[i] = peer.TaggedCookie(conn1.ID, 100+i, 100)
+			}
+			uid := randBytes(rng, 32)
+			hdr := make([]byte, 48)
+			hdr[0] = 0x24
+			buf := peer.NTSResponse(hdr, uid, late, d1.S2cKey)
+			var pkt nts.Packet
+			perr := nts.DecodePacket(&pkt, buf)
+			if perr == nil {
+				perr = nts.ProcessResponse(buf, d1.S2cKey, f, &pkt, uid)
+			}
+			if perr != nil {
+				r.Inconclusive(fmt.Sprintf("late-response case %s: the scripted late response was not accepted: %v", lid, perr))
+				continue
+			}
+			// drain: every request until the next key exchange uses session 2's keys with session 2's cookies
+			before := srv.NumConns()
+			var used []string
+			mixed := false
+			for i := 0; i < 20; i++ {
+				cur = &c20Case{class: "valid", stream: mkValid(1, "", 0), closeA: -1}
+				ctx, cancel := context.WithTimeout(context.Background(), 10*time.Second)
+				d, err := f.FetchData(ctx)
+				cancel()
+				srv.Wait()
+				if err != nil || srv.NumConns() != before {
+					break
+				}
+				cn, ci, ok := peer.ParseTaggedCookie(d.Cookie[0])
+				used = append(used, fmt.Sprintf("cookie(conn=%d,idx=%d,ok=%v) with keys of conn %d", cn, ci, ok, map[bool]int{true: conn2.ID, false: -1}[bytes.Equal(d.C2sKey, conn2.C2S)]))
+				if !bytes.Equal(d.C2sKey, conn2.C2S) || !bytes.Equal(d.S2cKey, conn2.S2C) || !ok || cn != conn2.ID {
+					mixed = true
+				}
+				r.Eval(1)
+			}
+			_ = d2
+			if mixed {
+				r.Violation("Fetcher.StoreCookie|state:cookie of a superseded session kept next to the keys of the current one", lid,
+					map[string]any{"session1_cookies": k1, "session2_cookies": k2, "late_response_cookies": m, "requests": used})
+			} else {
+				r.Class("late-response-of-superseded-session:cookies not kept")
+			}
+			r.Distinct(fmt.Sprintf("late:%d:%d:%d", k1, k2, m))
 		}
 
 		// ---- chains of complete exchanges on one client (one cookie each, so that every call re-keys):
